@@ -73,6 +73,12 @@ SCENARIOS = [
     ("C08", r"builder:.*(inh_ok|is_given_obj|inheritable)", "d6_pipeline_stderr_leak"),
     ("C08", r"spawn:.*inheritable", "d11_concurrent_spawn_leak"),
     ("C12", r"builder:.*(drop_impl|drop_glue_read|drop_glue_popen).*", "d7_read_adapter_drop"),
+    ("C14", r"builder:.*setup_communicate:.*(no_parked|popen_releasing)", "d13_capture_stderr_flood"),
+    ("C12", r"builder:.*setup_communicate:.*(no_parked|popen_releasing)", "d13_capture_stderr_flood"),
+    ("C14", r"builder:.*popen_releasing:.*(no_parked|all_wait_safe|release_on_failure)", "d13_capture_stderr_flood"),
+    ("C12", r"builder:.*popen_releasing:.*(no_parked|all_wait_safe|release_on_failure)", "d13_capture_stderr_flood"),
+    ("C12", r"builder:.*capture:precondition:drop_glue_(popen|vec_popen):", "d14_capture_error_hang"),
+    ("C14", r"builder:.*capture:precondition:drop_glue_(popen|vec_popen):", "d14_capture_error_hang"),
     ("C14", r"builder:.*popen:precondition:drop_glue_vec_popen:.*all_wait_safe", "d8_pipeline_partial_failure"),
     ("C12", r"builder:.*popen:precondition:drop_glue_vec_popen:.*all_wait_safe", "d8_pipeline_partial_failure"),
     ("C05", r"spawn:.*setup_streams:ensures:stdout is Merge && stderr is Merge", "d1_merge_merge"),
@@ -114,6 +120,7 @@ UNIT_TRUST = {
         "builder world (units/models/buildw.rs, buildw_shims2.rs): Popen::create appends one stage recording what it was given and returns a Running handle holding a parent end exactly for Pipe streams (contract proved in unit spawn); wait/drop contracts restated from unit pstate; a blocking wait is assumed not to fail",
         "drop glue (units/models/buildw_glue.rs) is written per the Rust reference (own Drop::drop, then fields in declaration order; Vec elements in order); explicit drop elaboration is inserted at the `?`/return sites of Pipeline::popen, join and capture",
         "wait-safety is demanded only of waits the library causes implicitly (drop glue); a user who asks join() for a pipe nobody reads is outside the claim",
+        "parked pipe ends (BW.parked): the read end make_pipe() returns and every end moved into a Communicator count as held by the library until the modelled drop (drop_glue_opt_file, drop_glue_communicator: R6 of `x.take();` / `drop(comm)` and of the `?` exits of capture / setup_communicate, locals dropped in reverse order of declaration) or until an unlimited Communicator::read succeeds (everything delivered, every stream at EOF: unit comm); a Communicator returned to the caller by communicate() is the caller's to look after (ghost hand_over); the public terminators assume nothing is parked when they are called",
         "R6 seams: map_stderr / map_detached = into_iter().map(f).collect(); Vec::drain(..1)/drain(len-1..) = remove(0)/pop(); enumerate loop = index loop with remove(0); Vec::extend(iter.map(f)) = push loop; env_retain_ne = Vec::retain with a destructuring closure; Path = its OsStr",
         "`impl AsRef<OsStr>` arguments are modelled by a local AsRef trait exposing the bytes; `impl Into<..>` parameters are rewritten to named type parameters (identical semantics)",
         "From<Redirection> for InputRedirection (panics on Merge) and the NullFile conversions are not verified here",
